@@ -1407,8 +1407,8 @@ def gen_cases(rng, tier, scale=1.0):
                       "threads": [{"op": "setattr", "field": fl[0], "value": v0},
                                   {"op": "setattr", "field": fl[1], "value": v1}]})
     for sname in A_SHAPES:
-        for _ in range(reps_a):
-            add("A", sname, 2, max_pre=max_pre, cap=120 if quick else 800)
+        for _ in range(reps_a if (not quick or shape(sname).racy) else 1):
+            add("A", sname, 2, max_pre=max_pre, cap=120 if quick else 650)
         if sname in ("array_int", "shared_set", "map_int") or not quick:
             add("A", sname, 3, max_pre=2, cap=120 if quick else 600)
     for sname, v0, v1 in CANONICAL_E:
@@ -1417,10 +1417,10 @@ def gen_cases(rng, tier, scale=1.0):
                       "threads": [{"op": "setattr", "field": fl[0], "value": v0},
                                   {"op": "setattr", "field": fl[1], "value": v1}]})
     reps_e = max(1, int((1 if quick else 3) * scale))
-    for sname in E_SHAPES:
+    for sname in (rng.sample(E_SHAPES, 16) if quick else E_SHAPES):
         for _ in range(reps_e):
             flat = sname in ("anyof", "oneof", "allof", "notfield") or sname.startswith("shared_")
-            add("E", sname, 2, max_pre=max_pre, cap=100 if quick else 400, **({"yield": "sitelines"} if flat else {}))
+            add("E", sname, 2, max_pre=max_pre, cap=100 if quick else 320, **({"yield": "sitelines"} if flat else {}))
     # twin declarations: every thread on a DIFFERENT declaration (other field / other class) of the same spelling
     def add_twin(stream, sname, n, directed=None, **kw):
         decls = roster(sname)
@@ -1548,7 +1548,7 @@ def gen_cases(rng, tier, scale=1.0):
         cases.append({"stream": "B", "shape": sname, "threads": ths, "sseed": rng.randrange(1 << 30),
                       "max_pre": max_pre, "nsched": 40 if quick else 150})
     reps_b = max(1, int((1 if quick else 4) * scale))
-    for sname in (rng.sample(ALL_SHAPES, 26) if quick else ALL_SHAPES):
+    for sname in (rng.sample(ALL_SHAPES, 18) if quick else ALL_SHAPES):
         for _ in range(reps_b):
             add("B", sname, 3 if rng.random() < 0.2 else 2, max_pre=max_pre, nsched=20 if quick else 50)
     return cases
